@@ -152,7 +152,10 @@ def gen_history(r, cfg, nops, reopen=False, freeall=None):
         ops.append("check")
     bigs = 0
     since = 0
-    for _ in range(nops):
+    # one request of 4 GiB or more (length arithmetic beyond 32 bits); only without byte patterns and with blocks of >= 512 bytes,
+    # where bitmap and model stay small (the file is not extended without SOLID)
+    huge = cfg.pat == 0 and cfg.bpow >= 9 and r.random() < 0.3
+    for step in range(nops):
         k = r.random()
         if k < 0.38:
             big = r.random() < 0.04 and bigs < 2
@@ -193,6 +196,12 @@ def gen_history(r, cfg, nops, reopen=False, freeall=None):
         if since >= 12:
             ops.append("check")
             since = 0
+    if huge:
+        # (at the end of the history: nothing but releases follows, so no later request has to extend the file past 4 GiB)
+        ops.append("alloc %d 0 %d" % ((1 << 32) * r.choice([1, 1, 2]) + r.choice([2 * cfg.bsz, (1 << 20) + 1, 3 * cfg.bsz - 1]), NO_OVER | NO_STATS))
+        ops.append("check")
+        nalloc += 1
+        freeall = True if freeall is None else freeall
     if freeall is None:
         freeall = r.random() < 0.4
     if freeall:
